@@ -217,3 +217,59 @@ Print Assumptions C10_total_charge_filtered.
 Print Assumptions C10_total_charge_all_lost.
 Print Assumptions C10_nonvacuous_lattice.
 Print Assumptions C10_nonvacuous_stats.
+
+(** * 4. Vectorised apertures (appended, round 4): half sizes with a batch shape, finite and infinite entries side by side.
+    Model: entry k of the outgoing survival tensor = the scalar aperture with the half sizes of entry k (Diag/ApertureVec.v). *)
+From Cheetah Require Import Diag.ApertureVec.
+Open Scope Q_scope.
+
+(* the survival tensor has the batch shape of the half sizes (one beam broadcast against the batch) *)
+Theorem C10_vec_aperture_shape : forall v b, List.length (vap_track v b) = List.length (v_halves v).
+Proof. exact vap_length. Qed.
+
+(* entry by entry: zero strictly outside the opening of THAT entry, kept strictly inside it *)
+Theorem C10_vec_aperture_zero_outside : forall v b k i, List.length (parts b) = List.length (surv b) ->
+  (k < List.length (v_halves v))%nat -> (i < List.length (parts b))%nat ->
+  strictly_outside (mkap (fst (nth k (v_halves v) (Inf, Inf))) (snd (nth k (v_halves v) (Inf, Inf))) (v_shape v) (v_active v))
+                   (nth i (parts b) []) ->
+  nth i (surv (nth k (vap_track v b) b)) 0 == 0.
+Proof. exact vap_entry_zero_outside. Qed.
+
+Theorem C10_vec_aperture_inside_kept : forall v b k i, List.length (parts b) = List.length (surv b) ->
+  (k < List.length (v_halves v))%nat -> (i < List.length (parts b))%nat ->
+  strictly_inside (mkap (fst (nth k (v_halves v) (Inf, Inf))) (snd (nth k (v_halves v) (Inf, Inf))) (v_shape v) (v_active v))
+                  (nth i (parts b) []) ->
+  nth i (surv (nth k (vap_track v b) b)) 0 == nth i (surv b) 0.
+Proof. exact vap_entry_inside_kept. Qed.
+
+(* coordinates, energy and charges of every entry are those of the incoming beam; the particle count is unchanged *)
+Theorem C10_vec_aperture_untouched : forall v b k, (k < List.length (v_halves v))%nat ->
+  parts (nth k (vap_track v b) b) = parts b /\ energy (nth k (vap_track v b) b) = energy b /\
+  charges (nth k (vap_track v b) b) = charges b /\ List.length (surv (nth k (vap_track v b) b)) = List.length (surv b).
+Proof. exact vap_entry_untouched. Qed.
+
+(* an entry whose half sizes are both infinite is fully open (rectangular) ... *)
+Theorem C10_vec_aperture_open_entry : forall b k v, v_shape v = Rect -> List.length (parts b) = List.length (surv b) ->
+  (k < List.length (v_halves v))%nat -> nth k (v_halves v) (Inf, Inf) = (Inf, Inf) ->
+  forall i, (i < List.length (parts b))%nat -> nth i (surv (nth k (vap_track v b) b)) 0 == nth i (surv b) 0.
+Proof. exact vap_open_entry. Qed.
+
+(* ... but does not open its finite neighbours: x_max = [inf, 1/2], y_max = inf; the particle at x = 1 survives entry 0, not entry 1 *)
+Example C10_vec_aperture_inf_next_to_finite :
+  map surv (vap_track (mkvap [(Inf, Inf); (Fin (1#2), Inf)] Rect true)
+                      (mkpb [[1; 0; 0; 0; 0; 0; 1]; [(1#4); 0; 3; 0; 0; 0; 1]] 100 [1; 1] [1; (1#2)]))
+  = [[1 * 1; (1#2) * 1]; [1 * 0; (1#2) * 1]].
+Proof. exact vec_witness. Qed.
+
+(* every beam of a batch against every entry of the half sizes (outer broadcast): shape (beams, entries) *)
+Theorem C10_vec_aperture_outer_shape : forall v bs, List.length (vap_track_outer v bs) = List.length bs /\
+  Forall (fun row => List.length row = List.length (v_halves v)) (vap_track_outer v bs).
+Proof. exact vap_outer_shape. Qed.
+
+Print Assumptions C10_vec_aperture_shape.
+Print Assumptions C10_vec_aperture_zero_outside.
+Print Assumptions C10_vec_aperture_inside_kept.
+Print Assumptions C10_vec_aperture_untouched.
+Print Assumptions C10_vec_aperture_open_entry.
+Print Assumptions C10_vec_aperture_inf_next_to_finite.
+Print Assumptions C10_vec_aperture_outer_shape.
